@@ -52,7 +52,7 @@ type settings struct {
 	NoDebug  bool   `json:"debug_info_disabled"`
 	Custom   bool   `json:"custom_sections"`
 	CloseCtx bool   `json:"close_on_context_done"`
-	Lst      string `json:"listeners"` // "-" none, "all", "even"
+	Lst      string `json:"listeners"` // "-" none, "all", "even", "nil" (a factory that declines every function)
 }
 
 type point struct {
@@ -83,7 +83,7 @@ func b(x bool) string {
 func allSettings() []settings {
 	var out []settings
 	for i := 0; i < 32; i++ {
-		for _, l := range []string{"-", "all", "even"} {
+		for _, l := range []string{"-", "all", "even", "nil"} {
 			out = append(out, settings{i&1 != 0, i&2 != 0, i&4 != 0, i&8 != 0, i&16 != 0, l})
 		}
 	}
@@ -91,7 +91,7 @@ func allSettings() []settings {
 }
 
 func randSettings(r *rand.Rand) settings {
-	return settings{r.Intn(2) == 0, r.Intn(2) == 0, r.Intn(2) == 0, r.Intn(2) == 0, r.Intn(2) == 0, []string{"-", "all", "even"}[r.Intn(3)]}
+	return settings{r.Intn(2) == 0, r.Intn(2) == 0, r.Intn(2) == 0, r.Intn(2) == 0, r.Intn(2) == 0, []string{"-", "all", "even", "nil"}[r.Intn(4)]}
 }
 
 // otherFor picks the second runtime's settings: half of the time in the same key class (same listener
@@ -140,6 +140,16 @@ func lattice(r *rand.Rand, thorough bool) []point {
 		pts = append(pts, point{settings: settings{i == 0, i == 1, i == 2, i == 3, i == 4, "-"}, Cache: "none"})
 	}
 	pts = append(pts, point{settings: settings{Lst: "even"}, Cache: "none"}, point{settings: settings{Lst: "all"}, Cache: "mem"})
+	// a listener factory that is present but declines every function (the cache key differs from "no factory",
+	// the generated code must not)
+	for _, m := range modes {
+		pts = append(pts, point{settings: settings{Lst: "nil"}, Cache: m, Other: none})
+	}
+	// warm disk cache written under the SAME settings (a true cache hit), for every listener class
+	for _, l := range []string{"-", "all", "even", "nil"} {
+		pts = append(pts, point{settings: settings{Lst: l}, Cache: "diskwarm", Other: settings{Lst: l}})
+		pts = append(pts, point{settings: settings{Lst: l, CloseCtx: true}, Cache: "diskwarm", Other: settings{Lst: l, CloseCtx: true}})
+	}
 	return pts
 }
 
@@ -176,10 +186,11 @@ func makeAlloc(cap, max uint64) experimental.LinearMemory {
 type lrec struct {
 	before, after, abort atomic.Int64
 	even                 bool
+	decline              bool
 }
 
 func (l *lrec) NewFunctionListener(d api.FunctionDefinition) experimental.FunctionListener {
-	if l.even && d.Index()%2 == 1 {
+	if l.decline || l.even && d.Index()%2 == 1 {
 		return nil
 	}
 	return l
@@ -221,7 +232,7 @@ func newSide(eng string, s settings, limit uint32, cache wazero.CompilationCache
 		ctx = experimental.WithMemoryAllocator(ctx, experimental.MemoryAllocatorFunc(makeAlloc))
 	}
 	if s.Lst != "-" {
-		sd.rec = &lrec{even: s.Lst == "even"}
+		sd.rec = &lrec{even: s.Lst == "even", decline: s.Lst == "nil"}
 		ctx = experimental.WithFunctionListenerFactory(ctx, sd.rec)
 	}
 	sd.ctx = ctx
@@ -658,7 +669,7 @@ func latticePhase(r *rand.Rand) {
 							// listeners are created per LOCAL function; the factory sees the function index in the
 							// function index space (imports first)
 							idx := i + importCount(j.p)
-							if j.pt.Lst == "even" && idx%2 == 1 {
+							if j.pt.Lst == "nil" || j.pt.Lst == "even" && idx%2 == 1 {
 								sb.WriteByte('n')
 							} else {
 								sb.WriteByte('1')
